@@ -127,3 +127,21 @@ Theorem C13_reachability_dfs :
     end.
 Proof. exact reach_dfs_spec. Qed.
 Print Assumptions C13_reachability_dfs.
+
+(* _imm_doms itself (Model/ImmDom.v line by line; compared with the code on every call of the pipeline and on
+   direct calls): under the chain hypotheses (a boolean, with a witness table) it returns the witness - no
+   KeyError, no `[v] = vs` on a set that is no singleton - for every enumeration order of the snapshots *)
+From V Require Import Model.ImmDom Model.ImmDomProof Model.ImmDomRun.
+Theorem C13_imm_doms_correct :
+  forall snap doms w fuel,
+    (forall k vs x, In x (snap k vs) <-> In x vs) ->
+    imm_pre doms w = true -> (2 <= fuel)%nat ->
+    imm_doms snap fuel doms =
+    IOk (flat_map (fun k => match zassoc k w with Some m => [(k, m)] | None => [] end) (map fst doms)).
+Proof. exact imm_doms_correct_b. Qed.
+Print Assumptions C13_imm_doms_correct.
+
+Example C13_imm_doms_example :
+  imm_pre [(1, [1]); (2, [1; 2]); (3, [1; 2; 3]); (4, [1; 2; 4])]%Z [(2, 1); (3, 2); (4, 2)]%Z = true /\
+  imm_doms (fun _ vs => rev vs) 3 [(1, [1]); (2, [1; 2]); (3, [1; 2; 3]); (4, [1; 2; 4])]%Z = IOk [(2, 1); (3, 2); (4, 2)]%Z.
+Proof. split; vm_compute; reflexivity. Qed.
